@@ -19,13 +19,17 @@ GEN_V = os.path.join(vlib.COQ, "CfgState", "Gen.v")
 
 
 class TieError(Exception):
-    pass
+    """the source was read and says something the model cannot follow (hard failure)"""
+
+
+class Unreadable(TieError):
+    """a construct is no longer recognised: nothing was read (soft: snapshot + differential run)"""
 
 
 def fn_body(src, name):
     m = re.search(r"\bfn\s+%s\s*(?:<[^>]*>)?\s*\(" % re.escape(name), src)
     if not m:
-        raise TieError("state.rs: fn %s not found" % name)
+        raise Unreadable("fn %s not found" % name)
     i = src.index("{", _sig_end(src, m.end()))
     return src[i + 1:_match(src, i)]
 
@@ -60,7 +64,7 @@ def strip_comments(s):
     return re.sub(r"/\*.*?\*/", "", s, flags=re.S)
 
 
-IFLET = re.compile(r"if\s+let\s+Some\(\s*(?:ref\s+)?(\w+)\s*\)\s*=\s*patch\.(\w+)(?:\.as_ref\(\))?\s*\{")
+IFLET = re.compile(r"if\s+let\s+Some\(\s*(?:ref\s+)?(\w+)\s*\)\s*=\s*&?\s*patch\.(\w+)(?:\.as_ref\(\)|\.as_deref\(\)|\.clone\(\))?\s*\{")
 
 
 def update_steps(src, fname):
@@ -71,6 +75,7 @@ def update_steps(src, fname):
     i = 0
     n = len(body)
     looked = False
+    lvar = "listener"
     while i < n:
         rest = body[i:]
         m = re.match(r"\s+", rest)
@@ -82,15 +87,31 @@ def update_steps(src, fname):
             steps.append(("knobs",))
             i += m.end()
             continue
-        m = re.match(r"let\s+address\s*:\s*SocketAddr\s*=\s*patch\.address\.into\(\);", rest)
+        # a pure binding of the address (any spelling that cannot fail and touches nothing)
+        m = re.match(r"let\s+(\w+)\s*(?::\s*SocketAddr)?\s*=\s*(?:patch\.address\.into\(\)|SocketAddr::from\(patch\.address\))\s*;", rest)
         if m:
+            addr_var = m.group(1)
             i += m.end()
             continue
-        m = re.match(r"let\s+listener\s*=\s*self\s*\.\s*\w+_listeners\s*\.\s*get_mut\(&address\)\s*\.\s*ok_or_else\(", rest)
+        # the lookup: `let l = self.x_listeners.get_mut(&a).ok_or[_else](..)?;` or `let Some(l) = .. else { .. return Err .. };`
+        m = re.match(r"let\s+(\w+)\s*=\s*self\s*\.\s*\w+_listeners\s*\.\s*get_mut\(&\s*(\w+)\)\s*\.\s*ok_or(?:_else)?\(", rest)
         if m:
             j = rest.index(";", _paren_end(rest, m.end() - 1))
             if not rest[:j].rstrip().endswith("?"):
-                raise TieError("%s: listener lookup is no longer `get_mut(..).ok_or_else(..)?`" % fname)
+                raise Unreadable("%s: listener lookup without `?`" % fname)
+            lvar = m.group(1)
+            steps.append(("lookup",))
+            looked = True
+            i += j + 1
+            continue
+        m = re.match(r"let\s+Some\(\s*(\w+)\s*\)\s*=\s*self\s*\.\s*\w+_listeners\s*\.\s*get_mut\(&\s*(\w+)\)\s*else\s*\{", rest)
+        if m:
+            ob = m.end() - 1
+            cb = _match(rest, ob)
+            if not re.search(r"return\s+Err", rest[ob:cb]):
+                raise Unreadable("%s: `let Some(..) = get_mut(..) else` does not return an error" % fname)
+            j = rest.index(";", cb)
+            lvar = m.group(1)
             steps.append(("lookup",))
             looked = True
             i += j + 1
@@ -106,7 +127,7 @@ def update_steps(src, fname):
                 if mv:
                     steps.append(("validate", field))
                     continue
-                ma = re.fullmatch(r"listener\.(\w+)\s*=\s*(.*)", st, flags=re.S)
+                ma = re.fullmatch(re.escape(lvar) + r"\.(\w+)\s*=\s*(.*)", st, flags=re.S)
                 if ma:
                     if ma.group(1) != field:
                         raise TieError("%s: patch.%s assigns listener.%s" % (fname, field, ma.group(1)))
@@ -115,18 +136,18 @@ def update_steps(src, fname):
                     rhs = ma.group(2).strip()
                     steps.append(("assign", field, rhs.startswith("Some(")))
                     continue
-                mm = re.fullmatch(r"merge_custom_http_answers\(\s*&mut\s+listener\.(\w+)\s*,\s*\w+\s*\)", st, flags=re.S)
+                mm = re.fullmatch(r"merge_custom_http_answers\(\s*&mut\s+" + re.escape(lvar) + r"\.(\w+)\s*,\s*&?\w+\s*\)", st, flags=re.S)
                 if mm:
                     steps.append(("merge", field))
                     continue
-                raise TieError("%s: statement not understood inside `if let Some(..) = patch.%s`: %s" % (fname, field, st[:80]))
+                raise Unreadable("%s: statement not understood inside `if let Some(..) = patch.%s`: %s" % (fname, field, st[:80]))
             i += cb + 1
             continue
         m = re.match(r"Ok\(\(\)\)", rest)
         if m:
             i += m.end()
             continue
-        raise TieError("%s: construct not understood: %s" % (fname, rest[:80].replace("\n", " ")))
+        raise Unreadable("%s: construct not understood: %s" % (fname, rest[:80].replace("\n", " ")))
     return steps
 
 
@@ -140,33 +161,51 @@ def _paren_end(s, i):
         i += 1
 
 
+def _local_macro(body, must_contain, what):
+    """name of the macro_rules! defined in `body` whose expansion contains `must_contain`"""
+    for m in re.finditer(r"macro_rules!\s+(\w+)\s*\{", body):
+        ob = m.end() - 1
+        if re.search(must_contain, body[ob:_match(body, ob)]):
+            return m.group(1), (m.start(), _match(body, ob) + 1)
+    raise Unreadable(what)
+
+
 def knob_table(src, fname):
     """validate_h2_flood_knobs_*: [(field, minimum)] in source order"""
     body = strip_comments(fn_body(src, fname))
+    mac, (m0, m1) = _local_macro(body, r"Some\(\s*0\s*\)", "%s: no local macro testing `Some(0)`" % fname)
+    rest = body[:m0] + " " * (m1 - m0) + body[m1:]
+    v = r"\w+"
+    pat = re.compile(
+        r"(?P<mac>\b" + re.escape(mac) + r"!\(\s*patch\.(?P<f1>\w+)\s*,\s*\"\w+\"\s*,?\s*\)\s*;)"
+        r"|if\s+let\s+Some\(" + v + r"\)\s*=\s*patch\.(?P<f2>\w+)\s*\{\s*if\s+" + v + r"\s*<\s*(?P<n2>\d+)\s*\{"
+        r"|matches!\(\s*patch\.(?P<f3>\w+)\s*,\s*Some\(" + v + r"\)\s+if\s+" + v + r"\s*<\s*(?P<n3>\d+)\s*\)"
+        r"|patch\.(?P<f4>\w+)\.(?:is_some_and|map_or)\((?:\s*false\s*,)?\s*\|" + v + r"\|\s*" + v + r"\s*<\s*(?P<n4>\d+)\s*\)")
     out = []
-    pos = 0
-    pat = re.compile(r"require_ge1!\(\s*patch\.(\w+)\s*,\s*\"(\w+)\"\s*,?\s*\)\s*;"
-                     r"|if\s+let\s+Some\(v\)\s*=\s*patch\.(\w+)\s*\{\s*if\s+v\s*<\s*(\d+)\s*\{")
-    for m in pat.finditer(body):
-        if m.group(1):
-            out.append((m.group(1), 1))
+    for m in pat.finditer(rest):
+        if m.group("mac"):
+            out.append((m.group("f1"), 1))
         else:
-            out.append((m.group(3), int(m.group(4))))
-    mm = re.search(r"if\s+let\s+Some\(0\)\s*=\s*\$field", body)
-    if not mm:
-        raise TieError("%s: require_ge1! no longer tests `Some(0)`" % fname)
-    # anything fallible we did not account for?
+            for k in "234":
+                if m.group("f" + k):
+                    out.append((m.group("f" + k), int(m.group("n" + k))))
+    # every rejection site must be one we accounted for (the macro's own + one per explicit minimum)
     n_err = len(re.findall(r"return\s+Err", body))
-    if n_err != 1 + sum(1 for f, mn in out if mn != 1):
-        raise TieError("%s: %d `return Err` sites, expected %d" % (fname, n_err, 1 + sum(1 for f, mn in out if mn != 1)))
+    want = 1 + sum(1 for f, mn in out if mn != 1)
+    if n_err != want or not out:
+        raise Unreadable("%s: %d `return Err` sites, %d understood" % (fname, n_err, want))
     return out
 
 
 def merge_fields(src):
     body = strip_comments(fn_body(src, "merge_custom_http_answers"))
-    if "get_or_insert_with(CustomHttpAnswers::default)" not in body:
-        raise TieError("merge_custom_http_answers: target is no longer initialised with get_or_insert_with(default)")
-    return re.findall(r"merge_field!\((\w+)\)\s*;", body)
+    if not re.search(r"get_or_insert_with\(", body):
+        raise Unreadable("merge_custom_http_answers: target no longer initialised with get_or_insert_with(..)")
+    mac, _ = _local_macro(body, r"Some\(", "merge_custom_http_answers: no local merge macro")
+    out = re.findall(r"\b" + re.escape(mac) + r"!\((\w+)\)\s*;", body)
+    if not out:
+        raise Unreadable("merge_custom_http_answers: no field merged")
+    return out
 
 
 def _bal(depth=5):
@@ -183,13 +222,12 @@ CERT_EVENTS = [
     (r"hex::decode\(&\w+\.old_fingerprint\)\s*\.map_err" + B + r"\?", "old_hex", "F"),
     (r"self\s*\.certificates\s*\.entry" + B + r"\s*\.or_default\(\)", "bucket_create", "M"),
     (r"\.apply_overriding_names\(\)\s*\.map_err" + B + r"\?", "apply_names", "F"),
-    (r"entry\.insert\(", "insert", "M"),
-    (r"self\s*\.certificates\s*\.get_mut\(&replace_address\)\s*\.ok_or" + B + r"\?", "lookup_mut", "F"),
-    (r"self\s*\.certificates\s*\.get\(&replace_address\)\s*\.ok_or" + B + r"\?", "lookup_bucket", "F"),
-    (r"\.remove\(&old_fingerprint\)", "remove_old", "M"),
+    (r"self\s*\.certificates\s*\.get_mut\(&\w+\)\s*\.ok_or(?:_else)?" + B + r"\?", "lookup_mut", "F"),
+    (r"let\s+Some\(\w+\)\s*=\s*self\s*\.certificates\s*\.get_mut\(&\w+\)\s*else\s*\{[^{}]*return\s+Err[^{}]*(?:\{[^{}]*\}[^{}]*)*\}", "lookup_mut", "F"),
+    (r"self\s*\.certificates\s*\.get\(&\w+\)\s*\.ok_or(?:_else)?" + B + r"\?", "lookup_bucket", "F"),
+    (r"\.remove\(&\w+\)", "remove_old", "M"),
     (r"calculate_fingerprint" + B + r"\s*\.map_err" + B + r"\?", "new_fingerprint", "F"),
-    (r"certs\.insert\(", "insert", "M"),
-    (r"\.insert\(\s*new_fingerprint", "insert", "M"),
+    (r"\b\w+\.insert\(", "insert", "M"),
     (r"return\s+Err\(StateError::ReplaceCertificate\(format!", "postcheck", "F"),
 ]
 
@@ -218,7 +256,7 @@ def cert_events(src, fname):
         covered += body[st:en].count("?")
         last_end = en
     if q != covered:
-        raise TieError("%s: %d `?` operators, only %d inside recognised constructs" % (fname, q, covered))
+        raise Unreadable("%s: %d `?` operators, only %d inside recognised constructs" % (fname, q, covered))
     return out
 
 
@@ -226,25 +264,55 @@ def coq_str(s):
     return '"%s"' % s
 
 
+SNAPSHOT = os.path.join(vlib.ROOT, "props", "cfgstate_facts.json")
+
+
+def read_facts(src):
+    """-> (summary, unreadable messages).  A piece that is no longer recognised is taken from the committed
+    snapshot of the facts last read (props/cfgstate_facts.json; `python3 props/cfgstate_common.py --snapshot`)."""
+    import json
+    try:
+        snap = json.load(open(SNAPSHOT))
+    except Exception:
+        snap = {}
+    summary, unreadable = {}, []
+
+    def piece(key, f):
+        try:
+            v = f()
+            summary[key] = json.loads(json.dumps(v))     # tuples -> lists, as in the snapshot
+        except Unreadable as ex:
+            if key not in snap:
+                raise TieError("%s unreadable (%s) and no snapshot" % (key, ex))
+            summary[key] = snap[key]
+            unreadable.append("unreadable: %s: %s; the model keeps the facts last read (props/cfgstate_facts.json)" % (key, ex))
+
+    piece("knobs_http", lambda: knob_table(src, "validate_h2_flood_knobs_http"))
+    piece("knobs_https", lambda: knob_table(src, "validate_h2_flood_knobs_https"))
+    piece("merge_fields", lambda: merge_fields(src))
+    for kind in ("http", "https", "tcp", "udp"):
+        piece("steps_" + kind, lambda kind=kind: update_steps(src, "update_%s_listener" % kind))
+    for fn in ("add_certificate", "replace_certificate"):
+        piece("events_" + fn, lambda fn=fn: cert_events(src, fn))
+    return summary, unreadable
+
+
 def gen_v_text(src):
+    summary, unreadable = read_facts(src)
     lines = ["(** GENERATED by props/cfgstate_common.py from /repo/command/src/state.rs — do not edit. *)",
              "From Coq Require Import List NArith String.",
              "From SV Require Import CfgState.Steps.",
              "Import ListNotations.",
              "Open Scope string_scope.",
              "Open Scope N_scope.", ""]
-    summary = {}
-    for kind, vf in (("http", "validate_h2_flood_knobs_http"), ("https", "validate_h2_flood_knobs_https")):
-        tbl = knob_table(src, vf)
-        summary["knobs_" + kind] = tbl
+    for kind in ("http", "https"):
+        tbl = summary["knobs_" + kind]
         lines.append("Definition knobs_%s : list (string * N) :=\n  [%s]." % (
             kind, ";\n   ".join("(%s, %d)" % (coq_str(f), mn) for f, mn in tbl)))
-    mf = merge_fields(src)
-    summary["merge_fields"] = mf
+    mf = summary["merge_fields"]
     lines.append("Definition answers_fields : list string :=\n  [%s]." % "; ".join(coq_str(f) for f in mf))
     for kind in ("http", "https", "tcp", "udp"):
-        st = update_steps(src, "update_%s_listener" % kind)
-        summary["steps_" + kind] = st
+        st = summary["steps_" + kind]
         items = []
         for s in st:
             if s[0] == "knobs":
@@ -261,11 +329,10 @@ def gen_v_text(src):
                 items.append("SMerge %s answers_fields" % coq_str(s[1]))
         lines.append("Definition steps_%s : list step :=\n  [%s]." % (kind, ";\n   ".join(items)))
     for fn in ("add_certificate", "replace_certificate"):
-        ev = cert_events(src, fn)
-        summary["events_" + fn] = ev
+        ev = summary["events_" + fn]
         lines.append("Definition events_%s : list (string * bool * bool) :=\n  [%s]." % (
             fn, ";\n   ".join("(%s, %s, %s)" % (coq_str(n), "true" if "F" in k else "false", "true" if "M" in k else "false") for n, k in ev)))
-    return "\n".join(lines) + "\n", summary
+    return "\n".join(lines) + "\n", summary, unreadable
 
 
 # the event order the hand-written certificate handlers of CfgState/Model.v mirror
@@ -275,29 +342,67 @@ MODEL_CERT_EVENTS = {
 }
 
 
+def _before(body, first_rx, then_rx):
+    """True / False when both constructs are found (is `first` before `then`?), None when one is not recognised"""
+    a, b = re.search(first_rx, body), re.search(then_rx, body)
+    if not a or not b:
+        return None
+    return a.start() < b.start()
+
+
 def translate():
     fails = []
     src = open(STATE_RS).read()
     try:
-        text, summary = gen_v_text(src)
+        text, summary, unreadable = gen_v_text(src)
     except TieError as ex:
         return ["T-steps: " + str(ex)], {}
+    fails += unreadable
     vlib.write_if_changed(GEN_V, text)
     for kind in ("http", "https"):
-        body = strip_comments(fn_body(src, "add_%s_listener" % kind))
-        i, j = body.find("validate_sozu_id_header("), body.find(".entry(address)")
-        if i < 0 or j < 0 or i > j or not re.search(r"if\s+let\s+Some\(ref\s+\w+\)\s*=\s*listener\.sozu_id_header", body):
+        try:
+            body = strip_comments(fn_body(src, "add_%s_listener" % kind))
+            order = _before(body, r"validate_sozu_id_header\(", r"\.entry\(|\.insert\(")
+        except TieError:
+            order = None
+        if order is None:
+            fails.append("unreadable: add_%s_listener: validation of sozu_id_header / map insertion not recognised; the model validates before inserting" % kind)
+        elif not order:
             fails.append("T-steps: add_%s_listener no longer validates listener.sozu_id_header before the map entry (model: add_listener)" % kind)
     for kind in ("tcp", "udp"):
-        body = strip_comments(fn_body(src, "add_%s_frontend" % kind))
-        i, j = body.find("cluster_id != &front.cluster_id"), body.find(".or_default()")
-        if i < 0 or j < 0 or i > j:
+        try:
+            body = strip_comments(fn_body(src, "add_%s_frontend" % kind))
+            order = _before(body, r"(?:cluster_id|\w+)\s*!=\s*&?\s*\w*\.?cluster_id|&?\w+\.cluster_id\s*!=\s*\w+", r"\.or_default\(\)|\.or_insert")
+        except TieError:
+            order = None
+        if order is None:
+            fails.append("unreadable: add_%s_frontend: the other-cluster test / bucket creation not recognised; the model refuses an address bound to another cluster before creating the bucket" % kind)
+        elif not order:
             fails.append("T-steps: add_%s_frontend no longer refuses an address bound to another cluster before creating the bucket (model: addr_elsewhere)" % kind)
     for fn, want in MODEL_CERT_EVENTS.items():
         got = [n for n, k in summary["events_" + fn]]
         if got != want:
             fails.append("T-steps: %s performs %s; coq/CfgState/Model.v mirrors %s" % (fn, got, want))
     return fails, summary
+
+
+TRANSLATE_FALLBACK = ("every fact the translator reads is observed by the differential run on generated cases: the order of "
+                      "validations and assignments of the patch handlers (a rejected patch that changed a field is a C07 oracle "
+                      "violation; patches with one bad validated field among good ones are enumerated), the patchable field list, "
+                      "flood-knob minima and merged answer fields (every patch is dumped field by field and compared with the model, "
+                      "values 0/1/2 around the minima), the event order of add/replace_certificate (bad PEM / bad X.509 / unknown "
+                      "address cases with full-state comparison), add-listener validation and the one-cluster-per-address rule "
+                      "(result codes and dumps)")
+
+
+if __name__ == "__main__":
+    import json, sys
+    if "--snapshot" in sys.argv:
+        summ, unread = read_facts(open(STATE_RS).read())
+        if unread:
+            sys.exit("cannot snapshot: " + "; ".join(unread))
+        json.dump(summ, open(SNAPSHOT, "w"), indent=1, sort_keys=True)
+        print("wrote", SNAPSHOT)
 
 
 # ---------------------------------------------------------------------------
@@ -390,7 +495,7 @@ _SUMMARY = None
 def summary():
     global _SUMMARY
     if _SUMMARY is None:
-        _SUMMARY = gen_v_text(open(STATE_RS).read())[1]
+        _SUMMARY = read_facts(open(STATE_RS).read())[0]
     return _SUMMARY
 
 
